@@ -3,7 +3,9 @@
 //   tables <tree>
 //     -> <tid>:<pos>:<assoc> ...      the library's own lookup tables (hook
 //        Ports::verif_tables) per table, preorder
-//   disp <tree> <address hex> <types hex> ...
+//   disp <tree> <address hex> <types hex> [<kind> [<stale hex or ->]] ...
+//        <stale>: the C string the location buffer holds when it is handed to
+//        the root dispatch (a reused scratch buffer); default: empty
 //     -> L <events> m=<matches> obj=<d.obj after> loc=<loc> | N <events> m=<matches> obj=<d.obj after> | R <tid>=<remap>;... T=<ok|DIFF>
 //        L: root dispatch with a location buffer, N: without.  One event per
 //        callback:  <tid>:<idx>@<msg offset>/<obj>/<loc hex or ~>/<d.port is this port>/<L leaf | I inner>
@@ -188,7 +190,8 @@ static void walk(Dyn *t, std::function<void(Dyn*)> f)
     for(auto &s : t->subs) if(s) walk(s.get(), f);
 }
 
-static std::string run(Dyn *root, const std::vector<uint8_t> &msg, bool withloc)
+static std::string run(Dyn *root, const std::vector<uint8_t> &msg, bool withloc,
+                       const std::vector<uint8_t> *stale = nullptr)
 {
     std::vector<std::string> log;
     g_log = &log;
@@ -197,6 +200,10 @@ static std::string run(Dyn *root, const std::vector<uint8_t> &msg, bool withloc)
     RtData d;
     char loc[1024];
     memset(loc, 0x55, sizeof(loc)); loc[0] = 0;
+    if(stale && stale->size() < sizeof(loc) - 300) {         // the buffer was used for something else before
+        memcpy(loc, stale->data(), stale->size());
+        loc[stale->size()] = 0;
+    }
     if(withloc) { d.loc = loc; d.loc_size = sizeof(loc); }
     d.obj = (void*)(intptr_t)1;
     d.matches = -7;
@@ -241,7 +248,10 @@ int main()
                 msg.push_back(',');
                 msg.insert(msg.end(), types.begin(), types.end());
                 do msg.push_back(0); while(msg.size() % 4);
-                std::string L = run(root.get(), msg, true);
+                std::vector<uint8_t> stale;
+                bool has_stale = f.size() >= 6 && f[5] != "-";
+                if(has_stale) stale = unhex(f[5]);
+                std::string L = run(root.get(), msg, true, has_stale ? &stale : nullptr);
                 std::string N = run(root.get(), msg, false);
                 std::ostringstream o;
                 o << "L " << L << " | N " << N << " | R ";
